@@ -92,7 +92,7 @@ def programs(ctx):
         [[O("PSend", "p", "f0")], [O("Fulfill", "p", kind="cap")], [O("Join", "r", to="p"), O("PSend", "r", "f0")]],
     ]
     # three-thread race programs: depth-first enumeration changes late decisions first; random schedules reach early switches
-    cb = 400 if ctx.quick else 5000
+    cb = 400 if ctx.quick else 3000
     for i, c in enumerate(chains):
         progs.append({"id": "chain-%d" % i, "threads": c, "budget": cb})
         progs.append({"id": "chain-%d-rnd" % i, "threads": c, "budget": cb, "mode": "rnd"})
